@@ -204,20 +204,11 @@ Print Assumptions C07_exodus_coord.
 
 (* ---- SCRIP -------------------------------------------------------------------------------- *)
 
-(* grids without padding (all faces the same size): same faces in the same order with the same
-   corner positions in the same cyclic order (node numbering is rebuilt by np.unique) *)
+(* the code as it is (since /repo 5e414c62: shorter faces repeat their last corner on export, repeated
+   trailing corners become padding on import): grids of ANY mix of face sizes, whose faces have
+   pairwise distinct corner positions, come back with the same faces, face order, corner order and
+   positions *)
 Theorem C07_scrip_roundtrip : forall m t lon lat,
-  Forall (fun r => length r = m /\ Forall (fun i => 0 <= i < Z.of_nat (length lon)) r) t ->
-  exists c d, c07_encode_scrip false t lon lat = Some c /\ c07_read_scrip false true c = Some d /\
-    c07_positions (dc_lon d) (dc_lat d) (dc_fnc d) = c07_positions lon lat t /\
-    length (dc_fnc d) = length t.
-Proof. exact c07_scrip_roundtrip. Qed.
-Print Assumptions C07_scrip_roundtrip.
-
-(* the proposed repair (encoder repeats the last corner of shorter faces, reader turns repeated
-   trailing corners back into padding): grids MIXING face sizes, whose faces have pairwise distinct
-   corner positions, come back with the same faces, face order, corner order and positions *)
-Theorem C07_scrip_repaired_roundtrip : forall m t lon lat,
   std_table m t ->
   Forall (fun r => corners r <> [] /\
                    Forall (fun i => 0 <= i < Z.of_nat (length lon)) (corners r) /\
@@ -226,10 +217,34 @@ Theorem C07_scrip_repaired_roundtrip : forall m t lon lat,
     c07_positions (dc_lon d) (dc_lat d) (dc_fnc d) = c07_positions lon lat t /\
     length (dc_fnc d) = length t.
 Proof. exact c07_scrip_repaired_roundtrip. Qed.
-Print Assumptions C07_scrip_repaired_roundtrip.
+Print Assumptions C07_scrip_roundtrip.
 
-(* grids mixing face sizes: the encoder indexes with the fill value and raises *)
-Theorem C07_scrip_mixed_refuted :
-  exists t lon lat, std_tableb 4 t = true /\ c07_encode_scrip false t lon lat = None.
-Proof. exact c07_scrip_mixed_refuted. Qed.
-Print Assumptions C07_scrip_mixed_refuted.
+(* ... stated on the variant record of the code as it is (mixed-size grids included) *)
+Theorem C07_scrip_mixed_roundtrip : forall m t lon lat,
+  std_table m t ->
+  Forall (fun r => corners r <> [] /\
+                   Forall (fun i => 0 <= i < Z.of_nat (length lon)) (corners r) /\
+                   NoDup (map (c07_pos lon lat) (corners r))) t ->
+  exists c d, c07_encode_scrip (vr_scrip_pad c07_faithful) t lon lat = Some c /\
+    c07_read_scrip (vr_scrip_pad c07_faithful) true c = Some d /\
+    c07_positions (dc_lon d) (dc_lat d) (dc_fnc d) = c07_positions lon lat t /\
+    length (dc_fnc d) = length t.
+Proof. exact c07_scrip_roundtrip_faithful. Qed.
+Print Assumptions C07_scrip_mixed_roundtrip.
+
+(* without the padding rule (before 5e414c62): grids whose faces all have the same size came back
+   exactly ... *)
+Theorem C07_scrip_nopad_roundtrip : forall m t lon lat,
+  Forall (fun r => length r = m /\ Forall (fun i => 0 <= i < Z.of_nat (length lon)) r) t ->
+  exists c d, c07_encode_scrip false t lon lat = Some c /\ c07_read_scrip false true c = Some d /\
+    c07_positions (dc_lon d) (dc_lat d) (dc_fnc d) = c07_positions lon lat t /\
+    length (dc_fnc d) = length t.
+Proof. exact c07_scrip_roundtrip. Qed.
+Print Assumptions C07_scrip_nopad_roundtrip.
+
+(* ... while grids mixing face sizes made the encoder index with the fill value and raise *)
+Theorem C07_scrip_mixed_before_fix_refuted :
+  exists t lon lat, std_tableb 4 t = true /\
+    c07_encode_scrip (vr_scrip_pad c07_before_fixes) t lon lat = None.
+Proof. exact c07_scrip_mixed_before_fix_refuted. Qed.
+Print Assumptions C07_scrip_mixed_before_fix_refuted.
